@@ -113,13 +113,16 @@ def callsOf : List Ev → List Call
   | .call c :: es => c :: callsOf es
   | .write _ :: es => callsOf es
 
+/-- a cursor observation `(Valid, Key, Pos)` completed by reading the position in state `s` -/
+def seeObs (s : St) (o : Obs Pos) : Obs Res :=
+  ⟨o.valid, o.key,
+    match s.db with
+    | some db => o.value.map (valueAt s db)
+    | none => none⟩
+
 /-- what `Driver.lean` (`fmtIter`) shows for the iterator `it` while the database is in state `s`:
     `Valid`, `Key`, and `Value` = the record read through the captured position *now* -/
-def see (s : St) (it : Iter) : Obs Res :=
-  ⟨it.obs.valid, it.obs.key,
-    match s.db with
-    | some db => it.obs.value.map (valueAt s db)
-    | none => none⟩
+def see (s : St) (it : Iter) : Obs Res := seeObs s it.obs
 
 /-- the executable interleaved run; the iterator is observed before the first event and after
     every event (a call moves the iterator, a write moves the database) -/
@@ -128,11 +131,52 @@ def transcript (s : St) (it : Iter) : List Ev → List (Obs Res)
   | .call c :: es => see s it :: transcript s (it.step c) es
   | .write h :: es => see s it :: transcript (hstep s h).1 it es
 
+/-- the same interleaved run with the sharded heap-merging iterator (`DBIter` over the index
+    positions) in place of the engine's cursor: `Iterator.Value` reads the position the sharded
+    iterator serves, in the current state -/
+def transcriptD (s : St) (it : DBIter Pos) : List Ev → List (Obs Res)
+  | [] => [seeObs s it.obs]
+  | .call c :: es => seeObs s it.obs :: transcriptD s (it.step c) es
+  | .write h :: es => seeObs s it.obs :: transcriptD (hstep s h).1 it es
+
 /-- the specification: an abstract cursor over a fixed key/value list; writes do not move it -/
 def specTranscript (a : Abs Res) : List Ev → List (Obs Res)
   | [] => [a.obs]
   | .call c :: es => a.obs :: specTranscript (a.step c) es
   | .write _ :: es => a.obs :: specTranscript a es
+
+theorem Iter.trace_head (it : Iter) (cs : List Call) : ∃ t, it.trace cs = it.obs :: t := by
+  cases cs with
+  | nil => exact ⟨[], rfl⟩
+  | cons c cs => exact ⟨_, rfl⟩
+
+theorem DBIter.trace_head {V : Type} (it : DBIter V) (cs : List Call) : ∃ t, it.trace cs = it.obs :: t := by
+  cases cs with
+  | nil => exact ⟨[], rfl⟩
+  | cons c cs => exact ⟨_, rfl⟩
+
+/-- two cursors with the same call trace give the same interleaved transcript -/
+theorem transcriptD_eq_of_trace (evs : List Ev) : ∀ (s : St) (dit : DBIter Pos) (it : Iter),
+    dit.trace (callsOf evs) = it.trace (callsOf evs) → transcriptD s dit evs = transcript s it evs := by
+  induction evs with
+  | nil =>
+    intro s dit it h
+    simp only [callsOf, DBIter.trace, Iter.trace, List.cons.injEq, and_true] at h
+    simp only [transcriptD, transcript, see, h]
+  | cons e es ih =>
+    intro s dit it h
+    have ho : dit.obs = it.obs := by
+      obtain ⟨t1, h1⟩ := DBIter.trace_head dit (callsOf (e :: es))
+      obtain ⟨t2, h2⟩ := Iter.trace_head it (callsOf (e :: es))
+      rw [h1, h2] at h
+      exact (List.cons.inj h).1
+    cases e with
+    | call c =>
+      simp only [callsOf, DBIter.trace, Iter.trace, List.cons.injEq] at h
+      simp only [transcriptD, transcript, see, ho, ih s _ _ h.2]
+    | write w =>
+      simp only [callsOf] at h
+      simp only [transcriptD, transcript, see, ho, ih _ _ _ h]
 
 /-- the cell under the abstract cursor belongs to the snapshot -/
 theorem CSim.value_mem {idx : List (Key × Pos)} {pre : Key} {rev : Bool} {it : Iter} {a : Abs Pos}
@@ -157,7 +201,7 @@ theorem see_eq {s0 s : St} {db0 : DB} {g : GDir} (hdb : s0.db = some db0) (hinv 
     see s it = (a.mapV (valueAt s0 db0)).obs := by
   obtain ⟨db', hdb', _⟩ := hst db0 hdb
   rw [Abs.mapV_obs]
-  unfold see Obs.mapV
+  unfold see seeObs Obs.mapV
   rw [hdb', h.obs]
   simp only []
   congr 1
